@@ -98,10 +98,11 @@ const (
 	stLong
 	stPrefix
 	stMixed
+	stDomain // behind stMixed so that "mixed" keeps drawing from the styles before it
 	numStyles
 )
 
-var styleNames = []string{"random 0..40 bytes", "all empty", "all equal", "one byte", "a few long leaves", "0x00/0x01 prefixes with node-preimage lengths", "mixed"}
+var styleNames = []string{"random 0..40 bytes", "all empty", "all equal", "one byte", "a few long leaves", "0x00/0x01 prefixes with node-preimage lengths", "mixed", "leaves that are hash preimages or digests of other parts of the same tree"}
 
 type spec struct {
 	hid   int
@@ -152,8 +153,11 @@ func render(class string, key []byte) interface{} {
 }
 
 // payloads returns all leaf payloads in one buffer with their offsets.
-func payloads(s spec, size int) (buf []byte, offs []int) {
+func payloads(s spec, size int, T merklem.Tree) (buf []byte, offs []int) {
 	r := fw.SubRng(s.seed, "payload")
+	if s.style == stDomain {
+		return domainPayloads(s, r, T)
+	}
 	offs = make([]int, s.n+1)
 	buf = make([]byte, 0, 24*s.n+64)
 	equal := make([]byte, 32)
@@ -207,6 +211,69 @@ func payloads(s spec, size int) (buf []byte, offs []int) {
 				rnd(r.Intn(8))
 			}
 		}
+		offs[i+1] = len(buf)
+	}
+	return buf, offs
+}
+
+// domainPayloads: second-preimage style inputs. Some leaves are ordinary short strings; each of the others is
+// built from the ordinary ones next to it: the concatenation of the leaf hashes of the two leaves before or
+// after it (what an inner node hashes, without its prefix), the same with the 0x01 / 0x00 prefix in front,
+// the inner node's digest, a neighbour's leaf hash, a neighbour's content with the leaf prefix in front, or a
+// copy of a neighbour. RFC 6962 separates all of these by the 0x00 / 0x01 prefixes.
+func domainPayloads(s spec, r *rand.Rand, T merklem.Tree) (buf []byte, offs []int) {
+	n := s.n
+	pl := make([][]byte, n)
+	derived := make([]bool, n)
+	for i := range pl {
+		derived[i] = r.Intn(3) == 0
+		if !derived[i] {
+			pl[i] = make([]byte, r.Intn(9))
+			r.Read(pl[i])
+		}
+	}
+	base := func(i int) bool { return i >= 0 && i < n && !derived[i] }
+	for i := range pl {
+		if !derived[i] {
+			continue
+		}
+		a, b := i-2, i-1 // the pair before
+		if r.Intn(2) == 0 {
+			a, b = i+1, i+2 // the pair behind
+		}
+		var d []byte
+		switch {
+		case base(a) && base(b):
+			la, lb := T.LeafHash(pl[a]), T.LeafHash(pl[b])
+			switch r.Intn(5) {
+			case 0, 1:
+				d = append(append(d, la...), lb...)
+			case 2:
+				d = append(append(append(d, 1), la...), lb...)
+			case 3:
+				d = T.NodeHash(la, lb)
+			default:
+				d = append(append(append(d, 0), la...), lb...)
+			}
+		case base(b):
+			switch r.Intn(3) {
+			case 0:
+				d = T.LeafHash(pl[b])
+			case 1:
+				d = append([]byte{0}, pl[b]...)
+			default:
+				d = append(d, pl[b]...)
+			}
+		case base(a):
+			d = T.LeafHash(pl[a])
+		default:
+			d = []byte{byte(r.Intn(2))}
+		}
+		pl[i] = d
+	}
+	offs = make([]int, n+1)
+	for i, d := range pl {
+		buf = append(buf, d...)
 		offs[i+1] = len(buf)
 	}
 	return buf, offs
@@ -345,7 +412,7 @@ func judge(class string, key []byte, o *fw.Obs) {
 		return
 	}
 
-	buf, offs := payloads(s, size)
+	buf, offs := payloads(s, size, T)
 	pristine := append([]byte(nil), buf...)
 	at := func(b []byte, i int) []byte { return b[offs[i]:offs[i+1]:offs[i+1]] }
 
